@@ -697,6 +697,63 @@ func checkVetoLast(c *Ctx, p *Prog, rule string) {
 		}
 	}
 	if flag == nil {
+		// the amendment asks a helper: its answer is the last word when the helper itself reads the
+		// variable and answers false on the "disable" edge
+		for _, d := range deepInstrs(p, fn, 2, nil) {
+			st, ok := d.in.(*ssa.Store)
+			if !ok {
+				continue
+			}
+			ref, _, okR := fieldAddrRef(st.Addr)
+			if !okR || ref.Name != "SetFgRGB" {
+				continue
+			}
+			for _, g := range rawGuardsAt(d.anchor.Block()) {
+				call, isCall := g.Cond.(*ssa.Call)
+				if !isCall || !g.Positive {
+					continue
+				}
+				callee := call.Call.StaticCallee()
+				if callee == nil || len(callee.Blocks) == 0 {
+					continue
+				}
+				reads := len(callsIn(callee, func(n string, cc *ssa.CallCommon) bool {
+					if n != "os.Getenv" {
+						return false
+					}
+					s, _ := constString(cc.Args[0])
+					return s == "TCELL_TRUECOLOR"
+				})) > 0
+				if !reads {
+					continue
+				}
+				nFalse, nOther := 0, 0
+				eachInstr(callee, func(in ssa.Instruction) {
+					ret, isRet := in.(*ssa.Return)
+					if !isRet || len(ret.Results) != 1 {
+						return
+					}
+					under := false
+					for _, g2 := range rawGuardsAt(in.Block()) {
+						if bo, isBO := g2.Cond.(*ssa.BinOp); isBO && bo.Op == token.EQL && g2.Positive {
+							if s, isS := constString(bo.Y); isS && s == "disable" {
+								under = true
+							}
+						}
+					}
+					if !under {
+						return
+					}
+					if v, isB := constBool(ret.Results[0]); isB && !v {
+						nFalse++
+					} else {
+						nOther++
+					}
+				})
+				c.Check(nFalse > 0 && nOther == 0, rule, "LookupTerminfo:disable-has-the-last-word", p.pos(call.Pos()), fmt.Sprintf("the amendment asks %s, which reads TCELL_TRUECOLOR and answers false on the disable edge (%d such return(s), %d other)", callee.Name(), nFalse, nOther))
+				return
+			}
+		}
 		c.Undecided(rule, "LookupTerminfo:amendment-flag", p.pos(fn.Pos()), "the flag tested before the RGB strings are added was not found")
 		return
 	}
